@@ -54,7 +54,9 @@ def rule_a(prog, rep):
             sv = short(v)
             if sv not in c11.MIRROR:
                 continue
-            ctors = [(nd, anc) for nd, anc in walk(arm['body']) if ctor_name(nd) and 'ClientWriteCommand::' in ctor_name(nd)]
+            # (found through crate.walk_fn so that closures - `cond.then(|| Cmd(..))` - and new helper functions are entered)
+            ctors = [(nd, anc) for nd, anc in crate.walk_fn(f) if ctor_name(nd) and 'ClientWriteCommand::' in ctor_name(nd) and
+                     any(a_ is arm['body'] for a_ in anc)]
             good = False
             for nd, anc in ctors:
                 g = [it for it in guards(anc + (nd,)) if it[0] == 'if']
